@@ -57,8 +57,35 @@ def parse_create(ctx, d, data: bytes, fmt: str, hierarchy: bool, via: str, n: in
     return (out.read_bytes() if out.exists() else None), ""
 
 
+WIRE = {"tr": None}
+
+
+def names_content(ctx, data: bytes, scn):
+    """Second conjunct: the description shown by parse, re-encoded by the REFERENCE encoder, must be the envelope."""
+    from . import c02_wire
+    if WIRE["tr"] is None:
+        WIRE["tr"] = toolrun.Trace()
+    try:
+        desc = toolrun.parse_lib(data)
+    except Exception:
+        return
+    if c02_wire.wire_event(ctx, WIRE["tr"], desc, data, scn):
+        ctx.count("parsed_descriptions_reencoded_by_Wire")
+
+
+def flush_wire(ctx):
+    from . import c02_wire
+    if WIRE["tr"] is not None and WIRE["tr"].events:
+        toolrun.report(ctx, WIRE["tr"], module="Wire_Trace", label="parse-names-content",
+                       keyfn=lambda b, s: ("F4:" + s["pin"]) if s.get("origin") == "pin" else f"wire:{b['clause']}:{s.get('label')}:{s.get('n')}")
+    WIRE["tr"] = None
+
+
 def roundtrip_events(ctx, tr, keys, d, data: bytes, label: str, n: int, via="lib"):
     t = tr.terms
+    names_content(ctx, data, {"label": label, "n": n, "env": data, "origin": tr.scn[tr.tid].get("origin"), "pin": tr.scn[tr.tid].get("pin")})
+    if WIRE["tr"] is not None and len(WIRE["tr"].events) > 500:
+        flush_wire(ctx)
     tr.ev("Created", name=f"a{n}", e=project.project_env(data, t, keys.pub))
     combos = [("yaml", False), ("json", False), ("yaml", True), ("json", True)]
     for k, (fmt, hier) in enumerate(combos if n % 3 == 0 else [combos[n % 4]]):
@@ -196,6 +223,7 @@ def run(ctx: core.Check):
         n += 3 - n % 3  # all four format/hierarchy combinations
         roundtrip_events(ctx, tr, keys, d, data, "pin", n)
     toolrun.report(ctx, tr, label="roundtrip-random", keyfn=keyfn)
+    flush_wire(ctx)
     ctx.assumptions += ["own CBOR reader; interned ids; order of text-keyed members is not compared (the property says 'set')",
                         "F4: a raw byte string that happens to decode as a CBOR int/tstr is shown as that value and re-created as "
                         "different bytes - known finding, pinned per site, family excluded from the random stream"]
@@ -221,3 +249,4 @@ def replay(ctx, rec):
     ctx.nontriv("replay2")
     ctx.sample({"replayed": {k: v for k, v in scn.items() if k != "env"}})
     toolrun.report(ctx, tr, label="replay", keyfn=keyfn)
+    flush_wire(ctx)
